@@ -290,8 +290,22 @@ func (v *FnVC) applyContract(in *ssa.Call, callee *ssa.Function, spec *FuncSpec,
 		newAlloc := v.fresh("alloc_after_"+sanitize(spec.Key), SInt)
 		v.assume(v.curGuard, Ge(newAlloc, pre.alloc), "alloc-monotone")
 		st.alloc = newAlloc
-		// heaps: those written, those that may hold fresh results
+		// heaps: those written, and those in which memory freshly allocated by
+		// the callee can become reachable for the caller (through results or
+		// through references stored into modified memory). Everything else —
+		// including ghost heaps not named in modifies — keeps its term.
 		touched := map[string]bool{}
+		reach := func(t types.Type) {
+			if t == nil {
+				return
+			}
+			for _, h := range refHeaps(t) {
+				if _, ok := v.heapSorts[h.name]; !ok {
+					v.heapSorts[h.name] = h.sort
+				}
+				touched[h.name] = true
+			}
+		}
 		for _, m := range mods {
 			if m.kind == "struct" {
 				for h := range v.heapSorts {
@@ -299,20 +313,19 @@ func (v *FnVC) applyContract(in *ssa.Call, callee *ssa.Function, spec *FuncSpec,
 						touched[h] = true
 					}
 				}
+				reach(m.elem)
 			} else {
 				touched[m.heap] = true
+				reach(m.elem)
 			}
 		}
-		for h := range v.heapSorts {
-			touched[h] = true // fresh allocations may appear in any heap kind
+		if spec.ModAll {
+			for h := range v.heapSorts {
+				touched[h] = true
+			}
 		}
 		for _, rt := range resTypes {
-			for _, h := range refHeaps(rt) {
-				if _, ok := v.heapSorts[h.name]; !ok {
-					v.heapSorts[h.name] = h.sort
-				}
-				touched[h.name] = true
-			}
+			reach(rt)
 		}
 		var hs []string
 		for h := range touched {
@@ -482,14 +495,21 @@ func refHeaps(t types.Type) []heapDesc {
 // evalMod turns a modifies expression into heap targets.
 func (v *FnVC) evalMod(env *Env, m *Expr) []modTarget {
 	val := env.eval(m)
+	if val.GHeap != "" {
+		return []modTarget{{kind: "array", heap: val.GHeap, ref: SRef(val.T), expr: m.String()}}
+	}
+	if m.Kind == "call" && env.ghostDecl(m.Name) != nil && env.ghostDecl(m.Name).Scalar {
+		a := env.eval(m.Args[0])
+		return []modTarget{{kind: "cell", heap: "HG_" + m.Name, ref: SRef(a.T), expr: m.String()}}
+	}
 	switch u := val.Typ.Underlying().(type) {
 	case *types.Slice:
-		return []modTarget{{kind: "array", heap: sliceHeap(u.Elem()), ref: SRef(val.T), expr: m.String()}}
+		return []modTarget{{kind: "array", heap: sliceHeap(u.Elem()), ref: SRef(val.T), expr: m.String(), elem: u.Elem()}}
 	case *types.Pointer:
 		if _, ok := u.Elem().Underlying().(*types.Struct); ok {
-			return []modTarget{{kind: "struct", heap: "HF_" + structName(u.Elem()) + "_", ref: val.T, expr: m.String()}}
+			return []modTarget{{kind: "struct", heap: "HF_" + structName(u.Elem()) + "_", ref: val.T, expr: m.String(), elem: val.Typ}}
 		}
-		return []modTarget{{kind: "cell", heap: cellHeap(u.Elem()), ref: val.T, expr: m.String()}}
+		return []modTarget{{kind: "cell", heap: cellHeap(u.Elem()), ref: val.T, expr: m.String(), elem: u.Elem()}}
 	}
 	specErr("modifies target %s has type %v (need slice or pointer)", m, val.Typ)
 	return nil
